@@ -58,6 +58,19 @@ func (r *Run) storeGuardsOf(fd *FuncDecl) map[string][]string {
 					set[a.Sig()] = true
 				}
 			}
+			// checks performed inside unexported helpers count for the stores they guard at the call site
+			for _, fa := range r.G.FlatAtoms(fd) {
+				if fa.Via == "" {
+					continue
+				}
+				top := fa.Outer
+				for top != nil && top.Outer != nil {
+					top = top.Outer
+				}
+				if top != nil && top.Unit == u && !top.Skip && u.Guards(top, at) {
+					set[fa.Sig()] = true
+				}
+			}
 			gs := []string{}
 			for g := range set {
 				gs = append(gs, g)
